@@ -24,7 +24,7 @@ RULE = ("trees of Sequence / Source / Split (depth <= 3) with SetContext (consta
         "(Split = copy per branch, export the meet), causality relation against the truncated tree (no model), run-time probe for leaks.")
 ASSUMPTIONS = [
     "every element object is built fresh for every tree (re-using one element in two trees is warned against by the test-suite itself)",
-    "Split branches are tuples (sequences with their own static context) or all bare accumulators (transparent Split); mixtures are left out "
+    "Split branches are tuples or explicit Sequence objects (sequences with their own static context) or all bare accumulators (transparent Split); mixtures are left out "
     "(the statement does not decide whether a bare element counts as an empty context)",
     "in trees with an unresolvable formatting key only the LenaKeyError, the consumers that precede the first such key in document order and the causality relation are judged",
     "formatting fields address leaf keys a, b, c.d, c.e; values are ints and short strings (str() of them is what a field renders)",
@@ -126,11 +126,17 @@ def expected_observation(it, ctx):
 
 # ---- real objects ------------------------------------------------------------------------
 
+PROBE = [[(0, {}), (1, {})]]
+
+
 def _src():
-    return iter([(0, {}), (1, {})])
+    return iter(copy.deepcopy(PROBE[0]))
 
 
-def build(items, reg, path=(), exp=None):
+BRANCH_AS = {"tuple": tuple, "sequence": lambda els: Sequence(*els), "list": list}
+
+
+def build(items, reg, path=(), exp=None, branch_as="tuple"):
     els = []
     if exp is None:
         exp = {}
@@ -155,10 +161,10 @@ def build(items, reg, path=(), exp=None):
         elif k == "src":
             els.append(_src)
         elif k == "seq":
-            els.append(Sequence(*build(it[1], reg, p, exp)))
+            els.append(Sequence(*build(it[1], reg, p, exp, branch_as)))
             exp[p] = els[-1]
         elif k == "split":
-            els.append(Split([tuple(build(br, reg, p + (j,), exp)) for j, br in enumerate(it[1])]))
+            els.append(Split([BRANCH_AS[branch_as](build(br, reg, p + (j,), exp, branch_as)) for j, br in enumerate(it[1])]))
             exp[p] = els[-1]
         elif k == "splitbare":
             els.append(Split([Sum() for _ in range(it[1])]))
@@ -171,7 +177,7 @@ def build(items, reg, path=(), exp=None):
 
 
 def build_root(case, reg, exp=None):
-    els = build(case["items"], reg, (), exp)
+    els = build(case["items"], reg, (), exp, case.get("branch_as", "tuple"))
     if case["root"] == "source":
         return Source(*els)
     return Sequence(*els)
@@ -409,7 +415,7 @@ def judge_tree(case):
             if case["root"] == "source" and not has_kind(titems, ("src",)):
                 titems.append(["src"])
             treg = {}
-            build_root({"root": case["root"], "items": titems}, treg)
+            build_root({"root": case["root"], "items": titems, "branch_as": case.get("branch_as", "tuple")}, treg)
             it = node_at(items, p)
             tobs = observe(it, treg[p], p)
             if tobs != observed[p]:
@@ -421,11 +427,16 @@ def judge_tree(case):
             classes.append("causality-checked")
         # 4. static context reaches run-time contexts only through UpdateContextFromStatic
         if mdl.first_unres is None and not has_kind(items, ("splitbare",)):
-            if case["root"] == "source":
-                got_vals = list(root())
-            else:
-                got_vals = list(root.run(iter([(0, {}), (1, {})])))
-            exp_vals = model_run(items, [(0, {}), (1, {})], mdl)
+            probe = [(i, copy.deepcopy(c)) for i, c in enumerate(case.get("probe", [{}, {}]))]
+            PROBE[0] = probe
+            try:
+                if case["root"] == "source":
+                    got_vals = list(root())
+                else:
+                    got_vals = list(root.run(iter(copy.deepcopy(probe))))
+            finally:
+                PROBE[0] = [(0, {}), (1, {})]
+            exp_vals = model_run(items, copy.deepcopy(probe), mdl)
             if [v[1] if isinstance(v, tuple) else None for v in got_vals] != [c for d, c in exp_vals]:
                 sig = "static-context-leaks-into-run-time-context"
                 if has_kind(items, ("ucfs", "mkfn")):
@@ -433,6 +444,38 @@ def judge_tree(case):
                 raise Violation(sig, "%s on the probe flow yields %s, expected contexts %s" % (
                     items, short(got_vals, 400), short([c for d, c in exp_vals], 400)))
             classes.append("run-probe")
+            # 4b. the values that flowed through change no element's static context
+            for p, el in sorted(reg.items()):
+                it = node_at(items, p)
+                if it[0] in ("store", "ucfs", "mkfn", "write"):
+                    again = observe(it, el, p)
+                    if again != observed[p]:
+                        raise Violation("run-time-context-leaks-into-static-context:" + it[0],
+                                        "%s: after the flow %s went through, %s at %s shows %r instead of %r" % (
+                                            items, short(probe, 300), it, p, again, observed[p]))
+            # 5. the same tree built again, now that the files of its Cache elements exist: the static context
+            #    of an element does not depend on what is on disk
+            if has_kind(items, ("cache",)):
+                reg2, exporters2 = {}, {}
+                root2 = build_root(case, reg2, exporters2)
+                if root2._get_context() != final:
+                    raise Violation("static-context-depends-on-existing-cache-files",
+                                    "%s (Split branches given as %s): built again after a run, _get_context() = %s, fold %s" % (
+                                        items, case.get("branch_as", "tuple"), root2._get_context(), final))
+                for p, el in sorted(reg2.items()):
+                    it = node_at(items, p)
+                    if it[0] in ("store", "ucfs", "mkfn", "write"):
+                        again = observe(it, el, p)
+                        if again != observed[p]:
+                            raise Violation("static-context-depends-on-existing-cache-files:" + it[0],
+                                            "%s (Split branches given as %s): built again after a run that filled the caches, %s at %s shows %r instead of %r" % (
+                                                items, case.get("branch_as", "tuple"), it, p, again, observed[p]))
+                for p, el in sorted(exporters2.items()):
+                    if el._get_context() != mdl.exports[p]:
+                        raise Violation("static-context-depends-on-existing-cache-files:export",
+                                        "%s (Split branches given as %s): built again after a run, %s at %s exports %r, fold %r" % (
+                                            items, case.get("branch_as", "tuple"), node_at(items, p)[0], p, el._get_context(), mdl.exports[p]))
+                classes.append("rebuilt-with-cache-files-present")
     n_cons = len(reg)
     nontrivial = bool(later_matters and n_cons) or has_kind(items, ("split",)) or mdl.first_unres is not None
     return {"nontrivial": nontrivial, "classes": sorted(set(classes))}
@@ -558,7 +601,11 @@ def tree_case(draw):
     chosen = []
     if paths:
         chosen = draw(st.lists(st.sampled_from(paths), max_size=4, unique=True))
-    return {"root": root, "items": items, "check_paths": [list(p) for p in chosen]}
+    # run-time contexts of the probe flow: flat keys that the name templates use, on some values only
+    rt = st.dictionaries(st.sampled_from(["a", "b", "z"]), st.sampled_from([3, "r", "s"]), max_size=2)
+    probe = draw(st.one_of(st.just([{}, {}]), st.lists(rt, min_size=2, max_size=3)))
+    return {"root": root, "items": items, "check_paths": [list(p) for p in chosen],
+            "branch_as": draw(st.sampled_from(["tuple", "tuple", "sequence", "sequence"])), "probe": probe}
 
 
 CHECKS = [
